@@ -191,7 +191,9 @@ fn gen_type_case(ch: &mut Chooser, max_depth: usize) -> TypeCase {
 
 // ---------- structural constructs ----------
 
-const STRUCTURAL: [&str; 21] = [
+const STRUCTURAL: [&str; 23] = [
+    "flatten-struct-field-with-serialized-as",
+    "flatten-variant-field-with-serialized-as",
     "flatten-struct-field-after-rename",
     "flatten-struct-field-before-rename",
     "flatten-variant-field-after-rename",
@@ -242,6 +244,9 @@ pub fn structural_program(kind: &str, skip: Skip) -> Option<(File, Option<File>)
             } else if kind.ends_with("-before-rename") {
                 bad.rename = Some("extra".into());
                 bad.style = AttrStyle::MergedReversed;
+            } else if kind.ends_with("-with-serialized-as") {
+                // a second, unrelated override on the same field must not switch the flatten check off
+                bad.serialized_as = Some("String".into());
             }
             let other = Item::strukt("Other", vec![Field::new("o", Ty::Prim("u32"))]);
             let mk = |fields: Vec<Field>| {
